@@ -4,8 +4,9 @@ import json, os, shutil, sys
 src, sid, prop, caught, note = sys.argv[1:6]
 dst = os.path.join("/verif/seeded", sid)
 os.makedirs(dst, exist_ok=True)
-for f in ("patch.diff", "demo.py"):
-    shutil.copy(os.path.join(src, f), os.path.join(dst, f))
+for f in ("patch.diff", "demo.py", "c_patch.diff"):
+    if os.path.exists(os.path.join(src, f)):
+        shutil.copy(os.path.join(src, f), os.path.join(dst, f))
 meta = json.load(open(os.path.join(src, "meta.json")))
 meta.update(property=prop, confirmed="demo.py exits 0 on /repo HEAD and non-zero with patch.diff applied (tools_mutant.sh); sub-agent reported no new test failures",
             detected_by_quick=caught, detection_note=note)
